@@ -352,6 +352,7 @@ func c12ForceApply(c *Client, force string) {
 type c12CustomRec struct {
 	mu        sync.Mutex
 	customRan bool // the lane's own handshake function (not the fingerprint one) ran
+	addrs     []string // addr arguments the handshake function in force (user's or fingerprint) was handed
 	called bool
 	failed bool
 	proto  string
@@ -381,6 +382,7 @@ func c12WrapHandshake(c *Client, rec *c12CustomRec) {
 	t.TLSHandshakeContext = func(ctx context.Context, addr string, plain net.Conn) (net.Conn, *tls.ConnectionState, error) {
 		conn, st, err := inner(ctx, addr, plain)
 		rec.mu.Lock()
+		rec.addrs = append(rec.addrs, addr)
 		rec.called = true
 		rec.failed = err != nil
 		if err == nil && st != nil {
@@ -390,6 +392,14 @@ func c12WrapHandshake(c *Client, rec *c12CustomRec) {
 		return conn, st, err
 	}
 }
+
+func (r *c12CustomRec) handedAll() []string {
+	r.mu.Lock()
+	defer r.mu.Unlock()
+	return append([]string(nil), r.addrs...)
+}
+
+func (r *c12CustomRec) handed() string { return strings.Join(r.handedAll(), ",") }
 
 func (r *c12CustomRec) failedNow() bool {
 	r.mu.Lock()
@@ -452,7 +462,10 @@ func c12InstallCustom(c *Client, cell c12Cell, rec *c12CustomRec) {
 		rec.mu.Lock()
 		rec.customRan = true
 		rec.mu.Unlock()
-		tc := tls.Client(plain, ccfg)
+		// addr at its documented meaning: the name to verify the peer against
+		hcfg := ccfg.Clone()
+		hcfg.ServerName = addr
+		tc := tls.Client(plain, hcfg)
 		if err := tc.HandshakeContext(ctx); err != nil {
 			return nil, nil, err
 		}
@@ -606,6 +619,19 @@ func c12Request(c *Client, o *c12Origin, cell c12Cell, force string, h3 bool, tc
 	}
 	if cell.scheme == "http" && !o.offer.plainH2 && (force == "-" || force == "1") && !strings.HasPrefix(step.impl, "ok:") {
 		complain("plain http request failed (%s) although the origin serves HTTP/1.1", step.impl)
+	}
+	if cell.scheme == "https" && cell.hasCustom() && rec.failedNow() && force != "3" && !(st.alt && h3) {
+		if cell.customGoverns() && cell.cTrust == "good" {
+			complain("the user's dial/handshake function verifies against the name it is given with a trust that accepts this certificate, yet it failed (handed %q)", rec.handed())
+		}
+		if !cell.customGoverns() && tcell.accept() {
+			complain("certificate acceptable under the client's settings, yet the fingerprint handshake failed")
+		}
+	}
+	for _, a := range rec.handedAll() {
+		if a != "127.0.0.1" {
+			complain("the TLS handshake function was handed %q instead of the bare host 127.0.0.1", a)
+		}
 	}
 	// the handshake function set LAST is the one in force (on the original and on every clone)
 	if cell.modelHS() && !cell.modelDial() && rec.wasCalled() {
